@@ -2208,10 +2208,13 @@ package ucfg
 //@ ensures [string_kind] err == nil && rtKind(baseType) == 24 && gotypeOf(val) != baseType ==> rvType(r) == baseType && rvStr(r) == toStringVal(val)
 
 // pointerize: the value comes back with exactly the target's type (as many pointer levels as the target has)
+// pzOf names the handle pointerize returns (a pointer to the value - to a copy of it when it is not addressable)
+//@ ghost func pzOf(t reflect.Type, base reflect.Type, v reflect.Value) reflect.Value
 //@ func pointerize :: t, base, v -> r
 //@ props C06 C07
 //@ sweep
 //@ rvwrites nothing
+//@ ensures [naming !unproved] r == pzOf(t, base, v)
 //@ ensures [same_type] t == base ==> r == v
 //@ ensures [target_type] t != base && rtKind(t) != 20 ==> rvType(r) == t
 
@@ -2339,7 +2342,7 @@ package ucfg
 // C08: the pieces of one string are evaluated in scope levels of their own (fresh, empty, chained to the level of the
 // string), so that the same variable may be used several times in one string; the level is restored on return
 //@ func (*splice).eval :: s, cfg, opts -> r, err
-//@ props C08 C07
+//@ props C08 C07 C02
 //@ sweep
 //@ requires s != nil && opts != nil
 //@ at-call iface:varEvaler.eval requires opts != nil && opts.activeFields != nil && forall k string :: !has(opts.activeFields.fields, k)
@@ -2385,6 +2388,7 @@ package ucfg
 //@ ensures [nil_is_valid] (rvKind(chasedI(val)) == 22 || rvKind(chasedI(val)) == 20) && rvNil(chasedI(val)) ==> result == nil
 //@ ensures [no_method] !implOf(rvType(chasedI(val)), old(tValidator)) && !implOf(ptrTo(rvType(chasedI(val))), old(tValidator)) ==> result == nil
 //@ ensures [value_receiver] !((rvKind(chasedI(val)) == 22 || rvKind(chasedI(val)) == 20) && rvNil(chasedI(val))) && implOf(rvType(chasedI(val)), old(tValidator)) ==> result == valRes(rvAny(chasedI(val)).(Validator))
+//@ ensures [pointer_receiver] !((rvKind(chasedI(val)) == 22 || rvKind(chasedI(val)) == 20) && rvNil(chasedI(val))) && !implOf(rvType(chasedI(val)), old(tValidator)) && implOf(ptrTo(rvType(chasedI(val))), old(tValidator)) ==> result == valRes(rvAny(pzOf(ptrTo(rvType(chasedI(val))), rvType(chasedI(val)), chasedI(val))).(Validator))
 
 //@ func (*expansionSingle).eval$1
 //@ props C08
